@@ -90,13 +90,16 @@ U1 == [code |-> C4(7777), flags |-> 0, vendor |-> V0, kind |-> "unknown", sem |-
 G(kids)  == Group(VCode("grouped"), MFlag, V0, kids)
 G2(kids) == Group(VGroup2, MFlag, V0, kids)
 GV(kids) == Group(VVCode("grouped"), VFlag + MFlag, VV, kids)
+\* Failed-AVP (279): a group the BASE dictionary defines; its members are resolved in the message's application
+GB(kids) == Group(279, MFlag, V0, kids)
 Groups ==
   { G(<<>>), G(<<L1>>), G(<<L2, L1>>), G(<<L1, L2, L3>>), GV(<<L3>>), GV(<<>>),
     G(<<G2(<<>>)>>), G(<<G2(<<L1>>), L2>>), G(<<L1, G2(<<GV(<<L4, U1>>)>>)>>),
-    G2(<<G(<<G2(<<L1>>)>>), G(<<>>)>>), G(<<U1, L4>>) }
+    G2(<<G(<<G2(<<L1>>)>>), G(<<>>)>>), G(<<U1, L4>>),
+    GB(<<L2, L1>>), G(<<GB(<<L3>>)>>), GB(<<G2(<<L1>>), L4>>) }
 
 Shapes == IF Rich THEN RichLeaves \cup Unknowns \cup Groups
-          ELSE PoorLeaves \cup {U1, G(<<L1>>), G(<<G2(<<L1>>), L2>>), GV(<<L3>>), G(<<>>)}
+          ELSE PoorLeaves \cup {U1, G(<<L1>>), G(<<G2(<<L1>>), L2>>), GV(<<L3>>), G(<<>>), GB(<<L2>>)}
 
 H(v, f, app, hbh, e2e) == [version |-> v, flags |-> f, cmd |-> Enc24(VCmd), app |-> app, hbh |-> hbh, e2e |-> e2e]
 Ids == { <<0, 0, 0, 0>>, <<0, 0, 0, 1>>, <<128, 0, 0, 0>>, <<255, 255, 255, 255>> }
